@@ -14,28 +14,35 @@ Definition has_char (c : Z) (s : txt) : bool := existsb (Z.eqb c) s.
 Definition strip_z (s : txt) : txt := match rev s with 90 :: r => rev r | _ => s end.
 Definition ends_z (s : txt) : bool := match rev s with 90 :: _ => true | _ => false end.
 
-Definition r_geo_kind (s : txt) : geomkind :=
-  match s with
-  | 76 :: _ => GLineString
-  | 80 :: 79 :: 73 :: _ => GPoint
-  | _ => GPolygon
-  end.
-Definition geomkind_eqb (a b : geomkind) : bool :=
-  match a, b with GPolygon, GPolygon | GPoint, GPoint | GLineString, GLineString => true | _, _ => false end.
-
 Definition r_strptime_date (s : txt) : option txt := if has_char 84 s then None else Some s.    (* 'T' : not a date *)
 Definition r_none (s : txt) : option txt := None.
 Definition r_some (s : txt) : option txt := Some s.
 Definition r_strptime_frac (s : txt) : option txt := if has_char 46 s && ends_z s then Some (strip_z s) else None.
 Definition r_strptime_nofrac (s : txt) : option txt := if negb (has_char 46 s) && ends_z s then Some (strip_z s) else None.
-Definition r_from_wkt (k : geomkind) (s : txt) : option txt := if geomkind_eqb k (r_geo_kind s) then Some s else None.
 
-Definition rgval := gval txt txt txt txt txt txt.
+Definition rgval := gval txt txt txt txt txt.
 Definition rjson := json.
 
 Definition list_eqb {A : Type} (eqb : A -> A -> bool) : list A -> list A -> bool :=
   fix go (a b : list A) {struct a} : bool :=
   match a, b with [], [] => true | x :: a', y :: b' => eqb x y && go a' b' | _, _ => false end.
+
+Definition pt_eqb (a b : pt) : bool := dy_eqb (fst a) (fst b) && dy_eqb (snd a) (snd b).
+Definition geom_eqb (a b : geom) : bool :=
+  match a, b with
+  | GeoPoint p, GeoPoint q => pt_eqb p q
+  | GeoLine l, GeoLine m => list_eqb pt_eqb l m
+  | GeoPoly e i, GeoPoly e' i' => list_eqb pt_eqb e e' && list_eqb (list_eqb pt_eqb) i i'
+  | _, _ => false
+  end.
+Definition wkt_eqb (a b : wkt) : bool :=
+  match a, b with
+  | WPoint p, WPoint q => pt_eqb p q
+  | WLineEmpty, WLineEmpty | WPolyEmpty, WPolyEmpty => true
+  | WLine l, WLine m => list_eqb pt_eqb l m
+  | WPoly r, WPoly r' => list_eqb (list_eqb pt_eqb) r r'
+  | _, _ => false
+  end.
 
 Definition blobkind_eqb (a b : blobkind) : bool :=
   match a, b with BBytearray, BBytearray | BBytes, BBytes | BMemoryview, BMemoryview => true | _, _ => false end.
@@ -43,21 +50,23 @@ Definition blobkind_eqb (a b : blobkind) : bool :=
 (* Python == on the deserialised values: sets unordered, dicts unordered, blobs by content *)
 Fixpoint rg_eqb (a b : rgval) {struct a} : bool :=
   match a, b with
-  | GStr _ _ _ _ _ _ x, GStr _ _ _ _ _ _ y => txt_eqb x y
-  | GBool _ _ _ _ _ _ x, GBool _ _ _ _ _ _ y => Bool.eqb x y
-  | GInt _ _ _ _ _ _ x, GInt _ _ _ _ _ _ y => x =? y
-  | GFloat _ _ _ _ _ _ m e, GFloat _ _ _ _ _ _ m' e' => dy_eqb (m, e) (m', e')
-  | GBlob _ _ _ _ _ _ _ x, GBlob _ _ _ _ _ _ _ y => txt_eqb x y
-  | GDecimal _ _ _ _ _ _ x, GDecimal _ _ _ _ _ _ y | GDate _ _ _ _ _ _ x, GDate _ _ _ _ _ _ y
-  | GTime _ _ _ _ _ _ x, GTime _ _ _ _ _ _ y | GUuid _ _ _ _ _ _ x, GUuid _ _ _ _ _ _ y
-  | GGeom _ _ _ _ _ _ x, GGeom _ _ _ _ _ _ y => txt_eqb x y
-  | GDatetime _ _ _ _ _ _ x _, GDatetime _ _ _ _ _ _ y _ => txt_eqb x y
-  | GTimedelta _ _ _ _ _ _ x, GTimedelta _ _ _ _ _ _ y => x =? y
-  | GDuration _ _ _ _ _ _ a1 a2 a3, GDuration _ _ _ _ _ _ b1 b2 b3 => (a1 =? b1) && (a2 =? b2) && (a3 =? b3)
-  | GList _ _ _ _ _ _ x, GList _ _ _ _ _ _ y | GTuple _ _ _ _ _ _ x, GTuple _ _ _ _ _ _ y => list_eqb (fun u w => rg_eqb u w) x y
-  | GSet _ _ _ _ _ _ x, GSet _ _ _ _ _ _ y =>
+  | GStr _ _ _ _ _ x, GStr _ _ _ _ _ y => txt_eqb x y
+  | GBool _ _ _ _ _ x, GBool _ _ _ _ _ y => Bool.eqb x y
+  | GInt _ _ _ _ _ x, GInt _ _ _ _ _ y => x =? y
+  | GFloat _ _ _ _ _ m e, GFloat _ _ _ _ _ m' e' => dy_eqb (m, e) (m', e')
+  | GBlob _ _ _ _ _ _ x, GBlob _ _ _ _ _ _ y => txt_eqb x y
+  | GDecimal _ _ _ _ _ x, GDecimal _ _ _ _ _ y | GDate _ _ _ _ _ x, GDate _ _ _ _ _ y
+  | GTime _ _ _ _ _ x, GTime _ _ _ _ _ y
+  | GUuid _ _ _ _ _ x, GUuid _ _ _ _ _ y => txt_eqb x y
+  | GGeom _ _ _ _ _ x, GGeom _ _ _ _ _ y => geom_eqb x y
+  | GDatetime _ _ _ _ _ x _, GDatetime _ _ _ _ _ y _ => txt_eqb x y
+  | GDatetimeAware _ _ _ _ _ w u, GDatetimeAware _ _ _ _ _ w' u' => txt_eqb w w' && txt_eqb u u'
+  | GTimedelta _ _ _ _ _ x, GTimedelta _ _ _ _ _ y => x =? y
+  | GDuration _ _ _ _ _ a1 a2 a3, GDuration _ _ _ _ _ b1 b2 b3 => (a1 =? b1) && (a2 =? b2) && (a3 =? b3)
+  | GList _ _ _ _ _ x, GList _ _ _ _ _ y | GTuple _ _ _ _ _ x, GTuple _ _ _ _ _ y => list_eqb (fun u w => rg_eqb u w) x y
+  | GSet _ _ _ _ _ x, GSet _ _ _ _ _ y =>
       forallb (fun u => existsb (fun w => rg_eqb u w) y) x && forallb (fun w => existsb (fun u => rg_eqb u w) x) y
-  | GDict _ _ _ _ _ _ x, GDict _ _ _ _ _ _ y =>
+  | GDict _ _ _ _ _ x, GDict _ _ _ _ _ y =>
       forallb (fun u => existsb (fun w => rg_eqb (fst u) (fst w) && rg_eqb (snd u) (snd w)) y) x &&
       forallb (fun w => existsb (fun u => rg_eqb (fst u) (fst w) && rg_eqb (snd u) (snd w)) x) y
   | _, _ => false
@@ -75,6 +84,7 @@ Fixpoint rj_eqb (a b : rjson) {struct a} : bool :=
   | JFloat m e, JFloat m' e' => dy_eqb (m, e) (m', e')
   | JStr x, JStr y => txt_eqb x y
   | JDur x, JDur y => durtext_eqb x y
+  | JWkt x, JWkt y => wkt_eqb x y
   | JList x, JList y | JTuple x, JTuple y => list_eqb (fun u w => rj_eqb u w) x y
   | JObj x, JObj y => list_eqb (fun u w => txt_eqb (fst u) (fst w) && rj_eqb (snd u) (snd w)) x y
   | JPairs x, JPairs y => list_eqb (fun u w => rj_eqb (fst u) (fst w) && rj_eqb (snd u) (snd w)) x y
@@ -87,13 +97,13 @@ Definition opt_eqb {A : Type} (eqb : A -> A -> bool) (a b : option A) : bool :=
   match a, b with Some x, Some y => eqb x y | None, None => true | _, _ => false end.
 
 Definition r_ser23 (ver : version) (v : rgval) : option rjson :=
-  serialize23 txt txt txt txt txt txt (fun x => x) (fun x => x) (fun x => x) (fun x => x) (fun x => x) r_geo_kind (fun x => x) ver v.
+  serialize23 txt txt txt txt txt (fun x => x) (fun x => x) (fun x => x) (fun x => x) (fun x => x) ver v.
 Definition r_ser1 (v : rgval) : option rjson :=
-  serialize1 txt txt txt txt txt txt (fun x => x) (fun x => x) (fun x => x) (fun x => x) (fun x => x) r_geo_kind (fun x => x) v.
+  serialize1 txt txt txt txt txt (fun x => x) (fun x => x) (fun x => x) (fun x => x) (fun x => x) v.
 Definition r_deser23 (ver : version) (j : rjson) : option rgval :=
-  deserialize23 txt txt txt txt txt txt r_some r_some r_strptime_date r_none r_none r_some r_strptime_frac r_strptime_nofrac
-                r_from_wkt rg_eqb ver j.
+  deserialize23 txt txt txt txt txt r_some r_some r_strptime_date r_none r_none r_some r_strptime_frac r_strptime_nofrac
+                rg_eqb ver j.
 Definition r_deser1 (t : option tio) (j : rjson) : option rgval :=
-  deserialize1 txt txt txt txt txt txt r_some r_some r_strptime_date r_none r_none r_some r_strptime_frac r_strptime_nofrac
-               r_from_wkt t j.
-Definition r_serializer_of (ver : version) (v : rgval) : option tio := serializer_of txt txt txt txt txt txt r_geo_kind ver v.
+  deserialize1 txt txt txt txt txt r_some r_some r_strptime_date r_none r_none r_some r_strptime_frac r_strptime_nofrac
+               t j.
+Definition r_serializer_of (ver : version) (v : rgval) : option tio := serializer_of txt txt txt txt txt ver v.
